@@ -277,6 +277,40 @@ func (r *Run) callBuiltin(b *ssa.Builtin, args []Value, fr *frame, in *ssa.Call)
 			panic(r.fault("value method called using nil pointer", ""))
 		}
 		return p
+	case "SliceData":
+		sl := args[0].(Slice)
+		if sl.V != nil {
+			panic(unsupported("unsafe.SliceData of view"))
+		}
+		if sl.A == nil {
+			return Ptr{}
+		}
+		return Ptr{A: sl.A, I: sl.Off, N: -7} // N=-7 marks "data pointer of a slice"
+	case "StringData":
+		st := args[0].(Str)
+		return Ptr{A: &Agg{T: types.NewArray(types.Typ[types.Uint8], int64(len(st.B))), E: termsToValues(st.B)}, I: 0, N: -7}
+	case "String":
+		p := args[0].(Ptr)
+		n := cint(args[1])
+		if n == 0 {
+			return Str{}
+		}
+		if p.A == nil {
+			panic(r.fault("unsafe.String: ptr is nil and len is not zero", ""))
+		}
+		es := r.rd(p.A)
+		out := make([]*smt.Term, n)
+		for i := range out {
+			out[i] = es[p.I+i].(*smt.Term)
+		}
+		return Str{out}
+	case "Slice":
+		p := args[0].(Ptr)
+		n := cint(args[1])
+		if p.A == nil {
+			return Slice{}
+		}
+		return Slice{A: p.A, Off: p.I, Len: n, Cap: n}
 	case "close":
 		panic(unsupported("close of channel"))
 	}
@@ -293,4 +327,12 @@ func isByteElem(a *Agg) bool {
 		}
 	}
 	return false
+}
+
+func termsToValues(ts []*smt.Term) []Value {
+	out := make([]Value, len(ts))
+	for i, t := range ts {
+		out[i] = t
+	}
+	return out
 }
